@@ -50,6 +50,7 @@ inductive Act
   | chanClose (c : String)
   | wait (c : String)              -- <-c
   | publish (kind : String) (args : List Prov)
+  | answer (v : Prov)              -- the value the entry point returns to its caller (besides the error)
 deriving DecidableEq, Repr, Inhabited
 
 inductive Val
@@ -152,6 +153,7 @@ def resolve (env : List (String × String)) : Act → Act
   | .chanClose c => .chanClose (lookup env c)
   | .wait c => .wait (lookup env c)
   | .publish k as => .publish k (as.map (resolveProv env))
+  | .answer v => .answer (resolveProv env v)
   | a => a
 
 def St.assign (st : St) (x : String) (v : Val) : St :=
